@@ -60,8 +60,18 @@ def main():
     ap.add_argument("--tier", default="quick")
     ap.add_argument("--skip-tests", action="store_true")
     ap.add_argument("--all", action="store_true")
-    ap.add_argument("--others", action="store_true", help="with --all: also run the checks of all other properties (false-alarm view)")
+    ap.add_argument("--benign", action="store_true", help="property-preserving changes (mutants/benign_index.json): every check must stay quiet")
     a = ap.parse_args()
+    if a.benign:
+        props = [f"C{i:02d}" for i in range(1, 21)]
+        alarms = []
+        for m in json.load(open(os.path.join(VERIF, "mutants", "benign_index.json"))):
+            res = run_one(os.path.join(VERIF, "mutants", m["patch"]), False, props, a.tier, True)
+            bad = {p: c for p, c in res["checks"].items() if c["exit"] != 0}
+            print(m["patch"], "clean" if not bad else f"ALARMS {bad}", flush=True)
+            alarms += [(m["patch"], p) for p in bad]
+        print("false alarms:", alarms)
+        return 1 if alarms else 0
     if not a.all:
         res = run_one(a.patch, a.reverse, [p for p in a.props.split(",") if p], a.tier, a.skip_tests)
         print(json.dumps(res, indent=1))
